@@ -1651,6 +1651,13 @@ class Sym:
             return None
         if t[0] == "downcast":
             return self.type_of(t[1], depth + 1)   # same value, narrowed to a variant
+        if t[0] in ("cindex", "index"):
+            bty = self.type_of(t[1], depth + 1)
+            if bty is not None and bty.get("k") in ("slice", "array"):
+                return unref(bty.get("t"))
+            return None
+        if t[0] == "subslice":
+            return self.type_of(t[1], depth + 1)
         if t[0] == "field":
             base = strip(t[1])
             if base[0] == "downcast":
